@@ -84,6 +84,11 @@ pub fn regex_tokinizer(tokinizer: &mut Tokinizer) {
 }
 
 pub fn language_tokinizer(tokinizer: &mut Tokinizer) {
+    /* Comments are claimed before anything else, so that a month name inside a comment stays a part of the comment */
+    if let Some(items) = tokinizer.config.token_parse_regex.get("comment") {
+        comment_regex_parser(tokinizer.config, tokinizer, items);
+    }
+
     let (lowercase_data, offsets) = map_case(&tokinizer.data, false);
     for func in LANGUAGE_BASED_TOKEN_PARSER.iter() {
         func(tokinizer.config, tokinizer, &lowercase_data, &offsets);
